@@ -28,7 +28,7 @@ RULES = {
 }
 MIN = {"R11": 6, "R1": 1, "R2": 3, "R3": 20, "R4": 3, "R5": 4, "R6": 1, "R7": 10, "R8": 5, "R9": 2, "R10": 8}
 TRUSTED = ["numpy Generator methods are deterministic functions of the generator state", "import aliases resolved from module-level imports"]
-TECHNIQUE = "resolved-callee who-may-call rule (API allow-list), parameter-threading check over the call graph, def-use of the stored generator"
+TECHNIQUE = "resolved-callee who-may-call rule (API allow-list), parameter-threading check over the call graph, def-use of the stored generator; freshness / borrowed-mutation analysis of the scoring step's inputs"
 LEVEL_TEXT = ("Determinism in (inputs, generator) is a discipline visible in the code: every draw must come from the "
               "generator that was passed in. The check enumerates every call site and every randomised callee of the "
               "tree; a fallback to a global or unseeded source anywhere is reported with the call chain.")
